@@ -138,3 +138,46 @@ def _sig1(p, drop):
     if k == "Range":
         return "range"
     return "?" + k
+
+
+PANIC_FNS = ("core::panicking::panic", "core::panicking::panic_fmt", "core::panicking::unreachable_display", "core::panicking::panic_display",
+             "core::panicking::panic_explicit", "std::rt::begin_panic", "core::panicking::assert_failed", "core::option::expect_failed",
+             "core::panicking::panic_str_2015", "std::rt::panic_fmt", "core::panicking::unreachable")
+
+
+def tail_expr(n):
+    """the expression in tail position of a block-like node"""
+    while isinstance(n, dict):
+        k = n.get("k")
+        if k == "Block" or (k is None and "ss" in n):
+            if "e" in n:
+                n = n["e"]
+                continue
+            ss = n.get("ss") or []
+            if not ss:
+                return n
+            last = ss[-1]
+            n = last.get("e") or last.get("i")
+            continue
+        return n
+    return n
+
+
+def panics_at_tail(body):
+    """the arm body's control flow ends in a panic (panic!/unreachable!/unimplemented!/todo!/direct panicking call)"""
+    t = tail_expr(body)
+    if not isinstance(t, dict) or not t.get("never"):
+        return None
+    if t.get("k") in ("Ret", "Continue", "Break"):
+        return None
+    if t.get("k") in ("Call", "MCall"):
+        f = t.get("f") or ""
+        if f in PANIC_FNS or f.startswith("core::panicking::"):
+            return (t.get("x") or f).split(">")[-1]
+        return "call:" + f     # a user function returning `!`
+    if t.get("k") == "Match" or t.get("k") == "If":
+        return None
+    x = t.get("x") or ""
+    if any(w in x for w in ("panic", "unreachable", "unimplemented", "todo")):
+        return x.split(">")[-1]
+    return None
